@@ -25,6 +25,11 @@ CHECKS = {
         technique="stateless deviation-bounded exploration of the real stack: boundary payload lengths x MTU x API x direction with every single datagram loss, plus <=2 deviations (drop/dup/delay) and blackouts on representative sizes; bounded-liveness oracle on a healed network",
         text="Every boundary length (around P, P-6, k*F, k*F+P-6) for 4 (quick) / 11 (thorough) MTUs through the four guaranteed-send APIs, honest and with each single loss in the first rounds; representative sizes under all <=2-deviation schedules and 6 blackout shapes with concurrent traffic. Delivery must happen within 6 virtual seconds of the network healing while both ends stay CONNECTED.",
         note="liveness is bounded by a horizon (6 s + fragment count); lengths between the boundaries and MTUs not listed are not run in quick; tick 1/64 s"),
+    "C07": dict(
+        engine="mcx", category="model_checking", design="5/C07",
+        technique="stateless deviation-bounded exploration (<=2 of drop/dup/delay 2,8,70 ticks on any data or ack datagram; blackout and long-frame parameters) of the real stack; monitor with virtual timestamps relating every callback to the peer's delivery log and to the send time",
+        text="All <=2-deviation schedules over 36 (quick) / ~500 (thorough) configurations of direction x retry mode x single/fragmented x ack/data blackout x owner stall; cb(True) is checked against the peer application's delivery log at that instant, cb(False) against the timeout, callback counts at quiescence, and assembled == acked + timeouts + pending at every tick on both ends.",
+        note="forged/stale ack fields are covered by C01/C04 (they are rejected before ack processing); <=2 deviations; timeout 1.0 s"),
 }
 
 NOT_YET = {
